@@ -626,6 +626,17 @@ TRANSPARENT_CALLS = (
 )
 
 
+TEXT_CONV = (
+    # value-preserving conversions between text representations (&str, String, bytes)
+    "std::string::String::as_str", "std::string::String::as_bytes", "core::str::<impl str>::as_bytes",
+    "<str as std::string::ToString>::to_string", "<std::string::String as std::convert::From<&str>>::from",
+    "<std::string::String as std::convert::From<&std::string::String>>::from", "core::str::<impl str>::to_string",
+    "std::string::String::into_bytes", "<str as std::convert::AsRef<[u8]>>::as_ref", "<std::string::String as std::convert::AsRef<str>>::as_ref",
+    "<str as std::convert::AsRef<str>>::as_ref", "<std::string::String as std::convert::AsRef<[u8]>>::as_ref",
+    "std::string::String::as_mut_str", "<std::string::String as std::borrow::Borrow<str>>::borrow",
+)
+
+
 def strip_transparent(e, extra=()):
     """peel refs, derefs, casts, value-preserving calls and local derived Clone impls"""
     while True:
